@@ -76,9 +76,11 @@ func c04GenProgram(s *kernel.Stream) (string, bool) {
 		}
 		switch s.Pick(3, 2, 3, 2, 1, 2, 1) {
 		case 0: // keyword search
-			return []string{"foo", "bar", "hello", "fo", "world", "1"}[s.Intn(6)]
+			// (rec, arr, n, s are also field names: a keyword matches field
+			// names, including those of records inside containers)
+			return []string{"foo", "bar", "hello", "fo", "world", "1", "rec", "arr", "n", "s"}[s.Intn(10)]
 		case 1: // glob
-			return []string{"foo*", "*bar", "f*o", "*o*"}[s.Intn(4)]
+			return []string{"foo*", "*bar", "f*o", "*o*", "re*", "*rr"}[s.Intn(6)]
 		case 2:
 			return fmt.Sprintf("%s == %s", field(), lit())
 		case 3:
@@ -219,6 +221,48 @@ func runProgram(ctx context.Context, program, format string, data []byte, ropts 
 	}
 }
 
+// memReader hands out the generated values themselves: the reference run
+// involves no encoding at all.
+type memReader struct {
+	vals []zed.Value
+	i    int
+}
+
+func (m *memReader) Read() (*zed.Value, error) {
+	if m.i >= len(m.vals) {
+		return nil, nil
+	}
+	m.i++
+	return &m.vals[m.i-1], nil
+}
+
+func runInMemory(ctx context.Context, program string, zctx *zed.Context, vals []zed.Value) ([]string, error) {
+	comp := compiler.NewCompiler()
+	seq, sset, err := comp.Parse(program)
+	if err != nil {
+		return nil, fmt.Errorf("parse: %w", err)
+	}
+	q, err := runtime.CompileQuery(ctx, zctx, comp, seq, sset, []zio.Reader{&memReader{vals: vals}})
+	if err != nil {
+		return nil, fmt.Errorf("compile: %w", err)
+	}
+	defer q.Pull(true)
+	var out []string
+	for {
+		b, err := q.Pull(false)
+		if err != nil {
+			return out, err
+		}
+		if b == nil {
+			return out, nil
+		}
+		for _, v := range b.Values() {
+			out = append(out, zson.FormatValue(v))
+		}
+		b.Unref()
+	}
+}
+
 func runC04(tape *kernel.Tape) *kernel.Outcome {
 	kn, wl := tape.Stream("knobs"), tape.Stream("workload")
 	out := &kernel.Outcome{}
@@ -301,17 +345,13 @@ func runC04(tape *kernel.Tape) *kernel.Outcome {
 		}
 		enc[f] = b
 	}
-	if _, ok := enc["zson"]; !ok {
-		out.Bucket = "no-reference"
-		return out
-	}
 	ctx := context.Background()
 	if dir := os.Getenv("VERIF_DUMP"); dir != "" {
 		for f, b := range enc {
 			os.WriteFile(dir+"/c04."+f, b, 0o644)
 		}
 	}
-	ref, refErr := runProgram(ctx, program, "zson", enc["zson"], zngio.ReaderOpts{Threads: 1}, nil)
+	ref, refErr := runInMemory(ctx, program, zctx, vals)
 	desc.Rows = len(ref)
 	norm := func(rows []string) string {
 		if !ordered {
@@ -321,7 +361,7 @@ func runC04(tape *kernel.Tape) *kernel.Outcome {
 		return strings.Join(rows, "\n")
 	}
 	sig := "C04"
-	for _, f := range []string{"zjson", "vng", "zng"} {
+	for _, f := range []string{"zson", "zjson", "vng", "zng"} {
 		data, ok := enc[f]
 		if !ok {
 			continue
@@ -360,7 +400,7 @@ func runC04(tape *kernel.Tape) *kernel.Outcome {
 			got, gotErr = runProgram(ctx, program, f, data, ropts, fr)
 		}
 		if (refErr != nil) != (gotErr != nil) {
-			out.Violation = kernel.Violatef(sig+":error-differs:"+f, "program %q: zson input gives error %v, %s input (%s) gives error %v", program, refErr, f, desc.ZNG, gotErr)
+			out.Violation = kernel.Violatef(sig+":error-differs:"+f, "program %q: over the values themselves (no encoding) the error is %v, over %s input (%s) it is %v", program, refErr, f, desc.ZNG, gotErr)
 			return out
 		}
 		if refErr != nil {
@@ -371,7 +411,7 @@ func runC04(tape *kernel.Tape) *kernel.Outcome {
 			continue
 		}
 		if norm(ref) != norm(got) {
-			out.Violation = kernel.Violatef(sig+":output-differs:"+f, "program %q over %d values: output differs between zson input and %s input (%s)\n only with zson: %s\n only with %s: %s",
+			out.Violation = kernel.Violatef(sig+":output-differs:"+f, "program %q over %d values: output differs between the values themselves (no encoding) and %s input (%s)\n only without encoding: %s\n only with %s: %s",
 				program, n, f, desc.ZNG, clipRows(onlyIn(ref, got), 8), f, clipRows(onlyIn(got, ref), 8))
 			return out
 		}
